@@ -2861,21 +2861,38 @@ func (dsc *dataStoreCommand) setMove(source, destination, memberName string) (ou
 		return
 	}
 
+	if dsk, destExists := dsc.getKeyObjectUnlocked(destination); destExists && dsk.getSet() == nil {
+		output.data = wrongTypeError
+		return
+	}
+
 	_, exists := ss.get(memberName)
 	if !exists {
 		output.data = respInt(0)
 		return
 	}
 
-	added, wrongType := dsc.setAddWorkerUnlocked(destination, []string{memberName}, SET_NOT_EXIST)
+	if source == destination {
+		// the member is already where it should be
+		output.data = respInt(1)
+		return
+	}
+
+	_, wrongType := dsc.setAddWorkerUnlocked(destination, []string{memberName}, SET_NOT_EXIST)
 	if wrongType {
 		output.data = wrongTypeError
 		return
 	}
 
 	ss.remove(memberName)
+	dsc.setDirty()
 
-	output.data = respInt(added)
+	// a set never exists empty
+	if ss.count == 0 {
+		dsc.ds.data.remove(source)
+	}
+
+	output.data = respInt(1)
 	return
 }
 
